@@ -238,8 +238,18 @@ func c17Witness(r *rt.Rec, seed int64, extra int) {
 		for ai := range g[rule] {
 			tree := g.WitnessTree(rule, ai, ma, par)
 			ok := check(rule, ai, tree, true)
+			// the same alternative under every parent and grandparent occurrence
+			// of its rule (a token kind may only be lexed in some contexts)
+			if !ok {
+				for _, t := range g.WitnessTreesInContexts(rule, ai, ma, par, reach) {
+					if ok = check(rule, ai, t, false); ok {
+						r.Count("alternatives_witnessed_in_another_context", 1)
+						break
+					}
+				}
+			}
 			tries := 0
-			for !ok && tries < 300 {
+			for !ok && tries < 1000 {
 				// other contexts: random derivation that contains the alternative
 				t := g.RandomTree(rng, "START", 0, 6, ma, 0.5)
 				found := false
